@@ -701,6 +701,7 @@ TLAPS_MODULES = {
     "map": ("MapProof.tla", "MapProofKV.tla", "MapProofRetain.tla", "MapProofId.tla"),
     "alg": ("MapProofAlg.tla", "MapProofEq.tla"),
     "eq": ("MapProofEq.tla",),
+    "scan": ("MapProofAlg.tla",),
 }
 
 
@@ -832,6 +833,8 @@ def run_check(pid, tier, seed):
         summary["tlaps_inductive_invariant"] = tlaps_proof("alg")
     if pid == "C14":
         summary["tlaps_inductive_invariant"] = tlaps_proof("eq")
+    if pid in ("C09", "C10"):      # the unfiltered scan: every entry exactly once, exact remaining length
+        summary["tlaps_inductive_invariant"] = tlaps_proof("scan")
     if pid in ("C01", "C07"):
         summary["apalache_refinement"] = apalache_refinement(tier)
         summary["tlaps_inductive_invariant"] = tlaps_proof()
